@@ -44,6 +44,40 @@ theorem parse_inside (c : Ctx) (base len : Nat) (hb : base + len ≤ c.buf.lengt
     c'.buf.take base = c.buf.take base ∧ c'.buf.drop (base + len) = c.buf.drop (base + len) :=
   Lemmas.Bounds.parse_inside c base len hb ho
 
+/-- "The same holds when a complete NUL-terminated line is handed straight to the line parser": SCPI_Parse on a line in an
+object of its own (len + 1 bytes) terminates within its step budget, composes no header before the start of the object,
+keeps the object's size, leaves the terminating NUL (and whatever follows the line) alone, and does not touch the
+context's input buffer -/
+theorem parse_line_inside (c : Ctx) (line : Bytes) (ho : c.oob = false) :
+    let r := parseLine c line
+    r.1.oob = false ∧ r.2.1.length = line.length + 1 ∧ r.2.1.drop line.length = [0] ∧
+    r.1.buf = c.buf ∧ r.1.bufLen = c.bufLen ∧ r.1.position = c.position := by
+  have h := parse_inside { c with buf := line ++ [0], bufLen := line.length + 1, position := 0 } 0 line.length
+    (by simp) (by simpa using ho)
+  simp only [parseLine]
+  refine ⟨h.1, by simpa using h.2.1, by simpa using h.2.2.2, ?_⟩
+  simp
+
+/-- and along every sequence of lines on one context -/
+theorem parse_lines_inside (c : Ctx) (lines : List Bytes) (ho : c.oob = false) :
+    (lines.foldl (fun c l => (parseLine c l).1) c).oob = false ∧
+    (lines.foldl (fun c l => (parseLine c l).1) c).buf = c.buf := by
+  induction lines generalizing c with
+  | nil => exact ⟨ho, rfl⟩
+  | cons l ls ih =>
+    have h := parse_line_inside c l ho
+    have := ih (parseLine c l).1 h.1
+    exact ⟨this.1, this.2.trans h.2.2.2.1⟩
+
+-- on literal bytes: "TEST:A;B" handed to the line parser runs both handlers; the second header is composed in place
+-- ("TETEST:B" + NUL), inside the 9-byte object
+example :
+    let c0 := Ctx.init [⟨[84, 69, 83, 84, 58, 65], 1, [.iTag]⟩, ⟨[84, 69, 83, 84, 58, 66], 2, [.iTag]⟩] [] 16 4 true
+    let r := parseLine c0 [84, 69, 83, 84, 58, 65, 59, 66]
+    r.2.1 = [84, 69, 84, 69, 83, 84, 58, 66, 0] ∧ r.2.2 = true ∧ r.1.oob = false ∧
+    r.1.events = [Ev.parseMsg [84, 69, 83, 84, 58, 65, 59, 66], Ev.handler 1 [84, 69, 83, 84, 58, 65], Ev.tag 1,
+                  Ev.handler 2 [84, 69, 83, 84, 58, 66], Ev.tag 2] := by decide +kernel
+
 /-- SCPI_Input keeps the context well formed for every chunk, including zero-length and over-long ones -/
 theorem input_wf (c : Ctx) (data : Bytes) (h : WF c) : WF (input c data) := Lemmas.Bounds.input_wf c data h
 
